@@ -44,4 +44,85 @@ theorem net_charge_is_gas_used_times_price (g0 gEnd price : Int) :
 
 example : Funcs.olvmRefundQuot (Funcs.olvmGasUsed 4000 25000) 3 = 7000 := by decide
 
+/-! ### intrinsic gas: the whole function, byte loop and overflow guards included -/
+
+/-- the non-zero bytes of a payload -/
+def nzCount (data : List Int) : Nat := (data.filter (fun b => b ≠ 0)).length
+
+theorem foldl_nz {f : Int → Int → Int} (hf : ∀ a b, f a b = a + (if b ≠ 0 then 1 else 0))
+    (data : List Int) (a : Int) : List.foldl f a data = a + (nzCount data : Int) := by
+  induction data generalizing a with
+  | nil => simp [nzCount]
+  | cons b bs ih =>
+    simp only [List.foldl_cons, ih, hf, nzCount, List.filter_cons]
+    by_cases hb : b = 0 <;> simp [hb] <;> omega
+
+theorem nzCount_le (data : List Int) : nzCount data ≤ data.length := by
+  unfold nzCount; exact List.length_filter_le _ _
+
+theorem guard16 (g z : Int) (hg : 0 ≤ g ∧ g ≤ 100000000) (hz : z ≤ 131072) :
+    ¬ Int.tdiv (18446744073709551615 - g) 16 < z := by
+  rw [Int.tdiv_eq_ediv_of_nonneg (by omega)]; omega
+
+theorem guard4 (g z : Int) (hg : 0 ≤ g ∧ g ≤ 100000000) (hz : z ≤ 131072) :
+    ¬ Int.tdiv (18446744073709551615 - g) 4 < z := by
+  rw [Int.tdiv_eq_ediv_of_nonneg (by omega)]; omega
+
+/-- `IntrinsicGas` of the source (whole function, with its two overflow guards and the byte
+    loop) is the model's formula for every payload below the transaction size limit and no access
+    list -/
+theorem intrinsicGas_is_source (data : List Int) (create : Bool) (hs : data.length ≤ txMaxSize) :
+    Funcs.olvmIntrinsicGas data create true 0 0 =
+      (((intrinsicGas (nzCount data) (data.length - nzCount data) create : Nat) : Int), false) := by
+  have hle := nzCount_le data
+  have hsz : data.length ≤ 131072 := hs
+  have hf : ∀ a b : Int, (if decide (b ≠ 0) = true then a + 1 else a) = a + (if b ≠ 0 then 1 else 0) := by
+    intro a b; by_cases hb : b = 0 <;> simp [hb]
+  unfold Funcs.olvmIntrinsicGas intrinsicGas
+  by_cases hd : data.length = 0
+  · have hn : nzCount data = 0 := by omega
+    cases create <;> simp [hd, hn]
+  · have hpos : (0 : Int) < (data.length : Int) := by omega
+    have e16a := guard16 53000 (nzCount data : Int) (by omega) (by omega)
+    have e16b := guard16 21000 (nzCount data : Int) (by omega) (by omega)
+    have e4a := guard4 (53000 + (nzCount data : Int) * 16) ((data.length : Int) - (nzCount data : Int)) (by omega) (by omega)
+    have e4b := guard4 (21000 + (nzCount data : Int) * 16) ((data.length : Int) - (nzCount data : Int)) (by omega) (by omega)
+    cases create
+    · simp only [Bool.false_eq_true, if_false]
+      rw [foldl_nz]
+      · have p1 : decide (Int.ofNat data.length > 0) = true := by
+          rw [decide_eq_true_eq]; exact hpos
+        rw [if_pos p1, Int.zero_add]
+        have q1 : ¬ decide ((18446744073709551615 - 21000 : Int).tdiv 16 < ↑(nzCount data)) = true := by
+          rw [decide_eq_true_eq]; exact e16b
+        rw [if_neg q1]
+        have q2 : ¬ decide ((18446744073709551615 - (21000 + (↑(nzCount data) : Int) * 16)).tdiv 4 <
+            Int.ofNat data.length - ↑(nzCount data)) = true := by
+          rw [decide_eq_true_eq]; exact e4b
+        rw [if_neg q2]
+        have q3 : ¬ ((!true) = true) := by decide
+        rw [if_neg q3]
+        congr 1
+        show (21000 : Int) + ↑(nzCount data) * 16 + ((data.length : Int) - ↑(nzCount data)) * 4 = _
+        omega
+      · intro a b; by_cases hb : b = 0 <;> simp [hb]
+    · simp only [if_true]
+      rw [foldl_nz]
+      · have p1 : decide (Int.ofNat data.length > 0) = true := by
+          rw [decide_eq_true_eq]; exact hpos
+        rw [if_pos p1, Int.zero_add]
+        have q1 : ¬ decide ((18446744073709551615 - 53000 : Int).tdiv 16 < ↑(nzCount data)) = true := by
+          rw [decide_eq_true_eq]; exact e16a
+        rw [if_neg q1]
+        have q2 : ¬ decide ((18446744073709551615 - (53000 + (↑(nzCount data) : Int) * 16)).tdiv 4 <
+            Int.ofNat data.length - ↑(nzCount data)) = true := by
+          rw [decide_eq_true_eq]; exact e4a
+        rw [if_neg q2]
+        have q3 : ¬ ((!true) = true) := by decide
+        rw [if_neg q3]
+        congr 1
+        show (53000 : Int) + ↑(nzCount data) * 16 + ((data.length : Int) - ↑(nzCount data)) * 4 = _
+        omega
+      · intro a b; by_cases hb : b = 0 <;> simp [hb]
+
 end OLP.Props.C17
